@@ -325,6 +325,19 @@ func neutralCases(r *hx.Rng) {
 		run.Count("mat1:" + name)
 		doMat1(mat1Desc{A: m, V: ints(r, 3, -9, 9), Exact: true, Inv: true})
 	}
+	// uniformly scaled invertible matrices: determinants 2^-12 .. 2^-160 (and 2^+120) — "singular within tolerance" guards
+	for j, k := range []int{-4, -7, -10, -14, -20, -27, -40, 40} {
+		m := affineDyadic(r, 1)
+		if maxabs(m) > 32 {
+			m = signedPerm(r)
+		}
+		re := [4]int{k, k, k, 0}
+		if j%2 == 1 {
+			re[3] = k
+		}
+		doMat1(mat1Desc{A: scaleRC(m, re, [4]int{}), V: ints(r, 3, -9, 9), Exact: true, Inv: true})
+	}
+	run.Count("mat1:uniform-scale")
 	for j, w := range bottomWs { // dense integer block, last row (0,0,0,w): Determinant / MulPosition exact, Inverse with tolerance
 		m := affineInt(r, w)
 		doMat1(mat1Desc{A: m, V: ints(r, 3, -9, 9), Exact: true, Inv: false})
